@@ -20,7 +20,8 @@ CONSTANTS ShapeNames,        \* subset of DOMAIN ShapeTab to enumerate
           NoCycleCheck,          \* deviation: resolve_profile without the visiting set
           MissingParentIgnored,  \* deviation: an unknown `extends` target resolves to an empty profile
           ProfileBeatsFlag,      \* deviation: apply_profile_to_options overwrites options set by flags
-          EnvProfileBeatsFlag    \* deviation: the environment's `profile` key wins over --profile
+          EnvProfileBeatsFlag,   \* deviation: the environment's `profile` key wins over --profile
+          WindowAsUnit           \* deviation: the TTL window (minttl, maxttl) is read from the file as a unit -- only when NO flag set either bound
 
 VARIABLES kase,   \* the case (input)
           pc,     \* "start" | "done"
@@ -56,13 +57,15 @@ ModeTab ==
     envnoprof |-> [config |-> TRUE,  profflag |-> "",   envflag |-> "e1", envprof |-> "",      root |-> "default"] ]
 
 \* focus pairs: same section (control), same section (storage), different sections
-GroupTab == [ A |-> <<"port", "token">>, B |-> <<"dir", "persistent">>, C |-> <<"ttl", "pow">> ]
+GroupTab == [ A |-> <<"port", "token">>, B |-> <<"dir", "persistent">>, C |-> <<"ttl", "pow">>, D |-> <<"minttl", "maxttl">> ]
 
 \* canonical document paths of the settings
 Sec(s) == CASE s = "ttl" -> "node" [] s = "port" -> "control" [] s = "token" -> "control"
             [] s = "pow" -> "announce" [] s = "dir" -> "storage" [] s = "persistent" -> "storage" [] s = "aap" -> "control"
+            [] s = "minttl" -> "node" [] s = "maxttl" -> "node"
 Key(s) == CASE s = "ttl" -> "default_ttl_seconds" [] s = "port" -> "port" [] s = "token" -> "token"
             [] s = "pow" -> "pow_difficulty" [] s = "dir" -> "directory" [] s = "persistent" -> "persistent" [] s = "aap" -> "advertise_allow_private"
+            [] s = "minttl" -> "min_ttl_seconds" [] s = "maxttl" -> "max_ttl_seconds"
 
 \* decoys that must never win: a profile off the chain, the "other" root name, another environment
 OtherCode == 8
@@ -141,8 +144,10 @@ ResolveProfile(d, name, visiting, fuel) ==
 \* apply_profile_to_options(profile, options): only options no flag has set are filled
 ApplyProfileToOptions(obj, opts) ==
     LET inObj == {s \in Settings : Sec(s) \in DOMAIN obj /\ Key(s) \in DOMAIN obj[Sec(s)]}
-    IN [s \in DOMAIN opts \cup inObj |->
-          IF s \in DOMAIN opts /\ ~(ProfileBeatsFlag /\ s \in inObj) THEN opts[s] ELSE obj[Sec(s)][Key(s)]]
+        window == {"minttl", "maxttl"}
+        seen  == IF WindowAsUnit /\ DOMAIN opts \cap window # {} THEN inObj \ window ELSE inObj
+    IN [s \in DOMAIN opts \cup seen |->
+          IF s \in DOMAIN opts /\ ~(ProfileBeatsFlag /\ s \in seen) THEN opts[s] ELSE obj[Sec(s)][Key(s)]]
 
 \* load_configuration(options)
 LoadConfiguration(d, opts) ==
